@@ -196,7 +196,8 @@ Qed.
 Theorem max_normalise_spec : forall l mx l',
   max_coeff l = Some mx -> 0 < mx -> max_normalise l = Some l' -> max_normalised l'.
 Proof.
-  intros l mx l' Hm Hpos Hn. unfold max_normalise in Hn. rewrite Hm in Hn. inversion Hn; subst l'.
+  intros l mx l' Hm Hpos Hn. unfold max_normalise in Hn. rewrite Hm in Hn.
+  rewrite (proj2 (Qltb_true 0 mx) Hpos) in Hn. inversion Hn; subst l'.
   destruct (max_coeff_spec l mx Hm) as [Hin Hle]. split.
   - intros y Hy. apply in_map_iff in Hy. destruct Hy as [x [<- Hx]].
     apply Qle_shift_div_r; [exact Hpos|]. rewrite Qmult_1_l. now apply Hle.
@@ -204,6 +205,19 @@ Proof.
     + apply in_map_iff. now exists mx.
     + field. intros E. rewrite E in Hpos. now apply Qlt_irrefl in Hpos.
 Qed.
+
+(* a non-positive maximum (constant data: all zero after centring) leaves the data alone *)
+Theorem max_normalise_nonpositive : forall l mx,
+  max_coeff l = Some mx -> mx <= 0 -> max_normalise l = Some l.
+Proof.
+  intros l mx Hm Hle. unfold max_normalise. rewrite Hm.
+  now rewrite (proj2 (Qltb_false 0 mx) Hle).
+Qed.
+
+(* before F43 the same data was divided by its zero maximum *)
+Theorem max_normalise_shipped_div0 :
+  max_normalise_shipped [0; 0; 0] = Some (map (fun x => x / 0) [0; 0; 0]).
+Proof. reflexivity. Qed.
 
 (* the normalisation is by the largest SIGNED entry, not by the largest magnitude *)
 Theorem max_normalise_signed :
